@@ -3,9 +3,10 @@
    every primitive modelled, Option, Result, tuples of arity 1..8, Vec / slice / LinkedList /
    HashSet / BTreeSet / [T; N] for every N, byte containers, maps, Box/Rc/Arc/&, PhantomData,
    nested to any depth.  `v` ranges over all values the Rust type can hold (wf_val).
-   Not yet in the model (stated in MANIFEST): the chrono and BigDecimal codecs. *)
+   Primitives include the chrono codecs (features/chrono.rs) and the two public var-int writers.
+   Not yet in the model (stated in MANIFEST): the BigDecimal codec. *)
 From Coq Require Import NArith ZArith List.
-From Desert Require Import Outcome IO Types Codec CodecB CodecWf CodecRt2 PropLemmas.
+From Desert Require Import Outcome IO Types Calendar Codec CodecB CodecWf CodecRt2 PropLemmas.
 Import ListNotations.
 Open Scope N_scope.
 
@@ -45,5 +46,67 @@ Example C01_example_one_tuple_and_byte_array :
    | _ => False end).
 Proof. vm_compute. repeat split. Qed.
 
+(* non-vacuity for the chrono primitives and the var-int primitives: concrete values at the
+   boundaries of what chrono accepts are well-formed, encode to these bytes, and decode back *)
+Definition prim_rt (p : prim) (v : val) (bs : bytes) : Prop :=
+  wf_prim_val p v = true /\
+  enc_prim p v [] = Ok (bs, []) /\
+  dec_prim a_ops p (mkA bs [] []) = Ok (v, mkA [] [] []).
+
+Definition ex_budapest : bytes := [69; 117; 114; 111; 112; 101; 47; 66; 117; 100; 97; 112; 101; 115; 116].
+(* 2024-02-29T12:34:56.789 *)
+Definition ex_ndt : val :=
+  VNode 0 [VNode 0 [VZ 2024; VN 2; VN 29]; VNode 0 [VN 12; VN 34; VN 56; VN 789000000]].
+(* -262143-01-01T00:00:00 *)
+Definition ex_ndt_min : val :=
+  VNode 0 [VNode 0 [VZ (-262143); VN 1; VN 1]; VNode 0 [VN 0; VN 0; VN 0; VN 0]].
+
+Example C01_chrono_values :
+  prim_rt PNaiveDate (VNode 0 [VZ (-262143); VN 1; VN 1]) [129; 128; 240; 255; 15; 1; 1] /\
+  prim_rt PNaiveDate (VNode 0 [VZ 262142; VN 12; VN 31]) [254; 255; 15; 12; 31] /\
+  (* a leap second: 23:59:59 with nanosecond 1_999_999_999 *)
+  prim_rt PNaiveTime (VNode 0 [VN 23; VN 59; VN 59; VN 1999999999]) [23; 59; 59; 255; 167; 214; 185; 7] /\
+  prim_rt PDateTimeUtc (VNode 0 [VZ max_ts; VN 999999999])
+          [0; 0; 7; 119; 154; 10; 107; 127; 59; 154; 201; 255] /\
+  prim_rt PDateTimeUtc (VNode 0 [VZ min_ts; VN 0]) [255; 255; 248; 107; 115; 13; 238; 0; 0; 0; 0; 0] /\
+  prim_rt PFixedOffset (VZ (-86399)) [0; 253; 197; 10] /\
+  prim_rt PTz (VB ex_budapest) (1 :: 30 :: ex_budapest) /\
+  prim_rt PWeekday (VN 7) [7] /\
+  prim_rt PMonth (VN 12) [12] /\
+  prim_rt PNaiveDateTime ex_ndt [232; 15; 2; 29; 12; 34; 56; 192; 222; 156; 248; 2] /\
+  prim_rt PDateTimeLocal ex_ndt [232; 15; 2; 29; 12; 34; 56; 192; 222; 156; 248; 2] /\
+  (* +03:30 *)
+  prim_rt PDateTimeFixed (VNode 0 [ex_ndt; VZ 12600])
+          [232; 15; 2; 29; 12; 34; 56; 192; 222; 156; 248; 2; 0; 240; 196; 1] /\
+  prim_rt PDateTimeFixed (VNode 0 [ex_ndt_min; VZ 0]) [129; 128; 240; 255; 15; 1; 1; 0; 0; 0; 0; 0; 0] /\
+  prim_rt PDateTimeTz (VNode 0 [ex_ndt; VB ex_budapest])
+          ([232; 15; 2; 29; 12; 34; 56; 192; 222; 156; 248; 2] ++ 1 :: 30 :: ex_budapest) /\
+  prim_rt PVarU32 (VN 5210) [218; 40] /\
+  prim_rt PVarI32 (VZ (-64)) [127].
+Proof. vm_compute. repeat split. Qed.
+
+(* what chrono refuses is not a value, and its bytes are refused by the decoder *)
+Example C01_chrono_rejects :
+  wf_prim_val PNaiveDate (VNode 0 [VZ 2023; VN 2; VN 29]) = false /\
+  dec_prim a_ops PNaiveDate (mkA [231; 15; 2; 29] [] []) = Err EDeserializationFailure /\
+  (* nanoseconds >= 10^9 only in second 59 *)
+  wf_prim_val PNaiveTime (VNode 0 [VN 23; VN 59; VN 58; VN 1000000000]) = false /\
+  dec_prim a_ops PNaiveTime (mkA [23; 59; 58; 128; 148; 235; 220; 3] [] []) = Err EDeserializationFailure /\
+  (* the local time -262143-01-01T00:00:00 at +00:00:01 is an instant before chrono's range *)
+  wf_prim_val PDateTimeFixed (VNode 0 [ex_ndt_min; VZ 1]) = false /\
+  dec_prim a_ops PDateTimeFixed (mkA [129; 128; 240; 255; 15; 1; 1; 0; 0; 0; 0; 0; 2] [] [])
+    = Err EDeserializationFailure /\
+  dec_prim a_ops PFixedOffset (mkA (0 :: write_var_i32 86400) [] []) = Err EDeserializationFailure /\
+  dec_prim a_ops PWeekday (mkA [0] [] []) = Err EDeserializationFailure /\
+  dec_prim a_ops PMonth (mkA [13] [] []) = Err EDeserializationFailure /\
+  (* "Europe/Budapes" is not a zone *)
+  dec_prim a_ops PTz (mkA (1 :: 28 :: removelast ex_budapest) [] []) = Err EDeserializationFailure.
+Proof. vm_compute. repeat split. Qed.
+
+Example calendar_range :
+  ndt_secs min_year 1 1 0 0 0 = min_ts /\ ndt_secs max_year 12 31 23 59 59 = max_ts.
+Proof. vm_compute. split; reflexivity. Qed.
+
 Print Assumptions C01_roundtrip.
 Print Assumptions C01_roundtrip_impl.
+Print Assumptions C01_chrono_values.
